@@ -167,7 +167,9 @@ func runC26(r *Report) {
 				}
 				r.ObSite("R26d", s, "close-in-remove", all && len(callers) > 0 && delSub && delCh, fmt.Sprintf("the closed subscription is deleted from the id table (%v) and from its channels (%v)", delSub, delCh))
 			case w:
-				r.ObSite("R26d", s, "close-under-write-lock", true, "")
+				// a live subscription's channel is closed only by remove (which unregisters it from every
+				// channel it listens on); a close elsewhere under the lock leaves it registered somewhere
+				r.ObSite("R26d", s, "close-only-in-remove", false, "a subscription channel is closed under the lock outside remove: the subscription stays registered under its other channels and the next message for them is sent on a closed channel")
 			default:
 				// detached map: the closed channels come from a map value read under the lock, and the
 				// registry's maps were set to nil under the same lock
